@@ -17,12 +17,30 @@ groups with an unmet equation must be exactly the set of violated clauses (empty
 in particular for the input configuration of a legal floorplan).  At every slack e the relaxed clauses of the
 slack theorems (`*_met_iff`, delta = e + 1e-6), evaluated exactly, must agree group by group with what
 `is_equation_met()` reports; probes sit at 0.5 / 0.9 / 1.1 / 1.25 x the threshold (also across the 1e-6 clamp).
+
+Round e additions:
+  * decls   : every variable `Model(...)` declares (`_define_vars`, `define_time`): name, initial VALUE, LOWER, UPPER — three views
+              (ExpressionTree.data, the attached GKVariable, the variable list of the GEKKO object) vs `decls` of the model;
+  * slack   : `get_epsilon()` after `define_time` / `time_advance` / at chosen times vs `slackRaw` + `epsValue` (0.3 * 0.9^t, 0 below 1e-6);
+  * step    : the hard caps of group `radius` (structure, `evaluate`, `is_equation_met` of HARD equations) vs `stepEqs`;
+  * enforce : the `enforce` flag `Model.build_model` gives every no-overlap equation vs `enforceFlags` (L1 gap <= 0.2 max(W, H));
+  * rid     : `turn_off_rects(0.1)` + `get_constraints` with disabled rectangles (flags, moved centres, `Rid` equations) vs the model.
+Spec on the implementation, new clauses: the system "equations AND declared bounds" (bounds read from the real GKVariables):
+`declared.sound-positive` (a configuration with a non-positive side never satisfies both), `declared.complete` (a legal floorplan
+with sides >= 0.1 is inside the bounds); `slack-schedule`; `caps.sound / caps.complete`; `enforce.*` (a dropped pair is further
+apart than the threshold); `rid.flag`.
+END TO END (`live` stream): the real `tools/legalfloor` `main` — GEKKO and the local solver binary, offline — on tiny legal and
+slightly illegal inputs in forked children; a floorplan returned by a run whose last solve succeeded with every rectangle
+enabled must be legal (exact Fraction oracle) within the slack of that solve + the solver's relative tolerance (RTOL = 1e-2).
+Failures inside the region of a finding this check proposes (findings/C09_*.json) are counted in `proposed_findings` and become
+KNOWN-FINDING lines once the id is registered in known_findings.json.
 """
 from __future__ import annotations
 
 from fractions import Fraction
 
 from vcheck import Ctx, f2hex, hex2f
+import legal_common as _lc
 from legal_common import Built, ser_eq, ser_utils, cleanup as _cleanup
 
 LEVEL = "proof"
@@ -33,9 +51,13 @@ TRUSTED = [
     "correspondence run (trees node for node, evaluation bit for bit), not proved",
     "theorems are over ℝ for every slack e >= 0 and constant t >= 0 (exact system: e = t = 0); `is_equation_met` is executed at "
     "slacks 0 / 0.27 (installed by Model) / 0.05 / 5e-7 with t = 1e-6 in IEEE doubles and compared with the relaxed clauses (not proved for doubles)",
-    "GEKKO is not exercised: what the solver does with the equations (and its variable bounds lb/ub) is outside this check",
-    "STOG roles (`Rectangle.location`) are taken as the repository assigns them (C06); positive rectangle sizes are a hypothesis "
-    "(GEKKO variable bound lb = 0.1 on w/h)",
+    "the solver is exercised only by the `live` stream (a handful of tiny runs per check; their verdict allows the slack of the last solve "
+    "plus RTOL = 1e-2 relative to the size of an equation's terms); that GEKKO enforces the declared LOWER / UPPER of its variables "
+    "and solves what it is posted is assumed; the strings GEKKO is posted (`apply_equation`) are not compared",
+    "STOG roles (`Rectangle.location`) are taken as the repository assigns them (C06); positive rectangle sizes follow from the declared "
+    "variable bounds (`system_sound_declared`), which are compared with the real GKVariables on every run",
+    "FV/Model/LegalDecl.lean (declarations, slack schedule, step caps, enforce flags, disabled rectangles) — hand-written, tied by the "
+    "streams decls / slack / step / enforce / rid",
     "harness (Python, incl. the Fraction re-implementation of Legal) and compiled Lean driver: parsing, comparison",
 ]
 
@@ -89,7 +111,9 @@ def gen_module(rng, cw, ch, nbr_max):
 
 def gen_instance(rng):
     fam = rng.choice(["int", "quarter", "decimal"])
-    s = {"int": Fraction(1), "quarter": Fraction(1, 4), "decimal": Fraction(1, 10)}[fam]
+    if rng.random() < 0.07:
+        fam = "centi"      # a unit in which modules are narrower than the declared lower bound 0.1 of w / h
+    s = {"int": Fraction(1), "quarter": Fraction(1, 4), "decimal": Fraction(1, 10), "centi": Fraction(1, 40)}[fam]
     cols, rows = rng.choice([(1, 1), (2, 1), (1, 2), (2, 2), (3, 1), (2, 2)])
     cw, ch = _even(rng, 20, 36), _even(rng, 20, 36)
     cells = [(c, r) for r in range(rows) for c in range(cols)]
@@ -102,6 +126,11 @@ def gen_instance(rng):
         rects = gen_module(rng, cw, ch, 2 if rng.random() < 0.7 else 0)
         if rng.random() < 0.25:
             rects = rects[:1]
+        if kind == "soft" and rng.random() < 0.12:
+            # NOT a single-trunk orthogon: an extra rectangle that touches nothing (roles NO_POLYGON; only the
+            # correspondence streams use such a netlist)
+            x0, x1, y0, y1, _ = rects[0]
+            rects = rects + [(x1 + 4, x1 + 6, y1 + 4, y1 + 6, "X")] if x1 + 6 <= cw and y1 + 6 <= ch else rects
         rects = [(x0 + c * cw, x1 + c * cw, y0 + r * ch, y1 + r * ch, sd) for (x0, x1, y0, y1, sd) in rects]
         tot = sum((x1 - x0) * (y1 - y0) for (x0, x1, y0, y1, _) in rects)
         areaf = rng.choice([Fraction(1), Fraction(1), Fraction(9, 10), Fraction(3, 4)])
@@ -122,7 +151,7 @@ def _num(fam, s, k):
     v = Fraction(k) * s
     if fam == "int" and v.denominator == 1:
         return int(v)
-    if fam == "decimal":
+    if fam in ("decimal", "centi"):
         return round(float(v), 9)
     return float(v)
 
@@ -194,6 +223,12 @@ def legal_status(B: Built, orders, cfg):
     tiny, clear = unit * F(1, 10 ** 8), unit * F(1, 50)
     C = [[tuple(F(v) for v in b) for b in boxes] for boxes in cfg]
     st = {}
+    if any(w <= 0 or h <= 0 for bs in C for (_, _, w, h) in bs):
+        # not a configuration of boxes: the geometric clauses are not evaluated (the algebraic `eq_violations` still are)
+        st = {g: "unsure" for g in GROUPS}
+        st["Positive"] = "viol"
+        return st
+    st["Positive"] = "ok"
 
     def grade(v, tn=tiny, cl=clear):
         return "ok" if v <= tn else ("viol" if v >= cl else "unsure")
@@ -292,7 +327,7 @@ def eq_violations(B: Built, orders, cfg):
     for m, bs in enumerate(C):
         for (x, y, w, h) in bs:
             out["Bounds"] += [-(x - w / 2), -(y - h / 2), x + w / 2 - dw, y + h / 2 - dh]
-            out["Shapes"].append(10 * thin_r - 10 * (w * h / (w * w + h * h)))
+            out["Shapes"].append(10 * thin_r - 10 * (w * h / (w * w + h * h)) if (w or h) else F(10 ** 9))
         out["Area"].append(F(B.inmods[m]["area"]) - sum(w * h for (_, _, w, h) in bs))
         x0, y0, w0, h0 = bs[0]
         order, sides = orders[m]
@@ -374,8 +409,20 @@ def variants(rng, B: Built, orders, base, count):
         bs = cfg[m]
         sides = orders[m][1]
         op = rng.choice(["nudge", "shift", "far", "onto", "thin", "shrink", "detach", "slide", "swap", "resize", "branchmove", "grow",
-                         "edge", "edge"])
+                         "edge", "edge", "negate", "tiny"])
         what = op
+        if op in ("negate", "tiny"):
+            # sizes outside the declared variable bounds: a box with w, h < 0 (same area, same ratio), or a side below lb = 0.1
+            i = rng.randrange(len(bs))
+            x, y, w, h = bs[i]
+            if op == "negate":
+                bs[i] = (x, y, -w, -h)
+            else:
+                f = rng.choice([0.02, 0.05, 0.09, 0.0999])
+                bs[i] = (x, y, f, h) if rng.random() < 0.5 else (x, y, w, f)
+            what = op + ":" + ("soft" if not kind["hard"] else ("fixed" if kind["fixed"] else "hard"))
+            out.append((what, [[tuple(float(v) for v in b) for b in boxes] for boxes in cfg]))
+            continue
         if op == "edge":
             # stick out of the die by a multiple of (slack + 1e-6) for one of the slacks the equations are evaluated at:
             # just inside / just outside the acceptance threshold of is_equation_met (also across the 1e-6 clamp of the slack)
@@ -509,6 +556,13 @@ def _check_built(ctx: Ctx, inp, B: Built, nvar, fixed_cfgs, size) -> None:
     mods_w = wire_mods(B.inmods)
     orders = [model_order(m) for m in B.inmods]
     stog = all(o is not None for o in orders)
+    # declarations / step caps / enforce flags as `Model(...)` leaves them (before any configuration is assigned)
+    early = None
+    try:
+        early = {"decl": _lc.decl_views(B), "bounds": _lc.real_bounds(B), "enforce": _lc.enforce_flags(B),
+                 "steps": _lc.step_eqs(B)}
+    except Exception as ex:  # noqa: BLE001  (private observation points: optional)
+        ctx.notes.append("declarations / caps / enforce flags not observable: %s" % type(ex).__name__)
     nrect = sum(len(m["rects"]) for m in B.inmods)
     key = (inp["yaml"], inp["dw"], inp["dh"], inp["r"])
     ctx.case("struct", key, True, {"modules": len(B.inmods), "rects": nrect, "equations": len(B.eqs), "dw": B.dw, "dh": B.dh, "r": B.r})
@@ -531,11 +585,13 @@ def _check_built(ctx: Ctx, inp, B: Built, nvar, fixed_cfgs, size) -> None:
             cfgs += variants(ctx.rng, B, orders, ctx.rng.choice(legal2), max(1, nvar // 3))
     else:
         ctx.count("roles:not-a-single-trunk-labelling")
+    if fixed_cfgs is None and stog and inp.get("extra_cfgs"):
+        cfgs += [("corpus", [[tuple(float(v) for v in b) for b in boxes] for boxes in c]) for c in inp["extra_cfgs"]]
 
     reqs = ["F utils " + mods_w, "F gen " + P + " " + mods_w]
     tol = f2hex(1e-6)
     raws = []
-    obs = {}
+    obs = {lab: [] for (lab, _) in SLACKS}
     for (lab, raw) in SLACKS:
         try:
             rawv = B.set_slack(raw)
@@ -545,15 +601,32 @@ def _check_built(ctx: Ctx, inp, B: Built, nvar, fixed_cfgs, size) -> None:
         raws.append(rawv)
         for (_, c) in cfgs:
             reqs.append("F eval %s %s %s %s %s" % (P, f2hex(rawv), tol, mods_w, wire_cfg(c)))
-        # implementation observations at this slack
-        obs[lab] = []
-        for (what, c) in cfgs:
+    # implementation observations: per configuration the two sides of every equation once (they do not depend on the
+    # slack), then `is_equation_met()` under each slack
+    for (what, c) in cfgs:
+        try:
+            B.assign(c)
+        except Exception as ex:  # noqa: BLE001
+            ctx.spec_fail("operation-raised", dict(inp, what=what), {"operation": "ExpressionTree.assign", "raises": type(ex).__name__}, size)
+            return
+        sides = []
+        for g, e in B.eqs:
             try:
-                B.assign(c)
+                sides.append((float(e.lhs.evaluate()), float(e.rhs.evaluate())))
             except Exception as ex:  # noqa: BLE001
-                ctx.spec_fail("operation-raised", dict(inp, what=what), {"operation": "ExpressionTree.assign", "raises": type(ex).__name__}, size)
-                return
-            obs[lab].append(B.observe())
+                sides.append(("err:" + type(ex).__name__,))
+        for (lab, raw) in SLACKS:
+            B.set_slack(raw)
+            row = []
+            for (g, e), sd in zip(B.eqs, sides):
+                if len(sd) == 1:
+                    row.append(sd)
+                    continue
+                try:
+                    row.append((sd[0], sd[1], bool(e.is_equation_met())))
+                except Exception as ex:  # noqa: BLE001
+                    row.append(("err:" + type(ex).__name__,))
+            obs[lab].append(row)
     B.set_slack(0.0)
     replies = ctx.model(reqs)
     ctx.extra["slack_installed_by_Model"] = B.real_eps
@@ -648,12 +721,674 @@ def _check_built(ctx: Ctx, inp, B: Built, nvar, fixed_cfgs, size) -> None:
             ctx.count("cfg:" + label)
             if what == "input":
                 ctx.count("input:" + label)
+            if early is not None:
+                _spec_declared(ctx, B, early["bounds"], c, st, label, unmet, inp_c, what, size)
             for g in GROUPS:
                 if st[g] == "ok" and g in unmet:
                     clause = "input_satisfies" if what == "input" and not viol and not unsure else "complete." + g
                     ctx.spec_fail(clause, inp_c, {"clause_holds_but_unmet": unmet[g][:4], "status": st, "what": what}, size)
                 elif st[g] == "viol" and g not in unmet:
                     ctx.spec_fail("sound." + g, inp_c, {"clause_violated_but_all_equations_met": g, "status": st, "what": what}, size)
+    if early is not None:
+        _check_round_e(ctx, inp, B, P, mods_w, orders, cfgs, early, size)
+
+
+# ----------------------------------------------------------------------------- declarations, step caps, enforce flags, Rid (round e)
+MIN_SIDE = 0.1   # lb of w / h in `_define_vars`
+
+
+def _spec_declared(ctx: Ctx, B: Built, bounds, c, st, label, unmet, inp_c, what, size) -> None:
+    """the system "equations AND declared variable bounds" against legality (`system_sound_declared`,
+    `system_complete_declared_partial`): bounds read from the real GKVariables."""
+    kidx = {"x": 0, "y": 1, "w": 2, "h": 3}
+    oob = [(m, i, k, lo, up) for (m, i, k, lo, up) in bounds if not (lo <= c[m][i][kidx[k]] <= up)]
+    all_met = not unmet
+    if st.get("Positive") == "viol":
+        ctx.count("declared: non-positive size" + (", every equation met, excluded by the bounds only" if all_met and oob else ""))
+        if all_met and not oob:
+            ctx.spec_fail("declared.sound-positive", inp_c, {"nonpositive_size_satisfies_equations_and_declared_bounds": True,
+                                                            "what": what}, size)
+        return
+    mins = min(min(b[2], b[3]) for boxes in c for b in boxes)
+    if label == "legal":
+        if mins >= MIN_SIDE * (1 + 1e-9):
+            if oob:
+                ctx.spec_fail("declared.complete", inp_c, {"legal_floorplan_with_sides_at_least_0.1_outside_declared_bounds": oob[:3],
+                                                          "what": what}, size)
+        elif mins < MIN_SIDE * (1 - 1e-9):
+            ctx.count("declared: legal floorplan with a side below 0.1 " + ("excluded by the bounds (C09-min-side)" if oob else "NOT excluded"))
+            if oob:
+                _proposed(ctx, "C09-min-side", "declared.complete-below-min-side", inp_c,
+                          {"legal_floorplan_outside_declared_bounds": oob[:3], "smallest_side": mins, "what": what}, size)
+    elif all_met and not oob and st.get("Positive") == "ok":
+        ctx.count("declared: not graded legal, equations met, inside bounds")
+
+
+def _observe_eqs(eqs):
+    out = []
+    for g, e in eqs:
+        try:
+            out.append((float(e.lhs.evaluate()), float(e.rhs.evaluate()), bool(e.is_equation_met())))
+        except Exception as ex:  # noqa: BLE001
+            out.append(("err:" + type(ex).__name__,))
+    return out
+
+
+def _check_round_e(ctx: Ctx, inp, B: Built, P, mods_w, orders, cfgs, early, size) -> None:
+    key = (inp["yaml"], inp["dw"], inp["dh"], inp["r"])
+    tree, gkvar, gek, aux = early["decl"]
+    steps = early["steps"]
+    tol = f2hex(1e-6)
+    F = Fraction
+    # ---- implementation observations
+    step_obs = {}
+    use_cfgs = cfgs[: 1 + 4]
+    for (lab, raw) in SLACKS[:2]:
+        try:
+            B.set_slack(raw)
+            step_obs[lab] = []
+            for (_, c) in use_cfgs:
+                B.assign(c)
+                step_obs[lab].append(_observe_eqs(steps))
+        except Exception as ex:  # noqa: BLE001
+            ctx.spec_fail("operation-raised", inp, {"operation": "step caps", "raises": type(ex).__name__}, size)
+            return
+    B.set_slack(0.0)
+    rid_cfgs = [c for (_, c) in cfgs[:1]] + [c for (w_, c) in cfgs[1:] if w_.split(":")[0] in ("shrink", "resize", "grow", "tiny", "thin")][:2]
+    rid_cfgs = [c for c in rid_cfgs if all(b[2] > 0 and b[3] > 0 for boxes in c for b in boxes)]
+    rid_obs = []
+    for c in rid_cfgs:
+        try:
+            rid_obs.append(_lc.rid_view(B, c, 0.1))
+        except ZeroDivisionError:
+            rid_obs.append("err:ZeroDivisionError")
+        except Exception as ex:  # noqa: BLE001
+            ctx.notes.append("turn_off_rects / get_constraints not observable: %s" % type(ex).__name__)
+            rid_cfgs = rid_cfgs[:len(rid_obs)]
+            break
+    # slack schedule (last: it moves the `time` variable)
+    slack_obs = []
+    M = B.model
+    try:
+        from tools.legalfloor import expression_tree as et
+        et.set_epsilon(B.real_eps_tree)
+        t_now = float(M.time.evaluate())
+        slack_obs.append((t_now, float(et.get_epsilon())))
+        for _ in range(2):
+            M.time_advance(1)
+            slack_obs.append((float(M.time.evaluate()), float(et.get_epsilon())))
+        for t in (7.5, 50.0, 110.0, 114.0, 115.0, 131.0, 400.0):
+            M.time.assign(t)
+            slack_obs.append((t, float(et.get_epsilon())))
+        M.time.assign(t_now)
+        B.set_slack(0.0)
+        # the HARD equality `time == <value at the last time_advance>` (group `Exact Value`, made by ModelWrapper.fix)
+        hard_obs = []
+        for ev_eq in M.gekko.constraints.get("Exact Value", []):
+            for off in (0.0, 5e-7, -9e-7, 2e-6, -1.0, 3.0):
+                M.time.assign(t_now + 2 + off)      # two time_advance(1) calls above: the equation pins t_now + 2
+                for (lab, raw) in SLACKS[:2]:
+                    rawv = B.set_slack(raw)
+                    hard_obs.append((ev_eq.cmp.name, bool(ev_eq.hard), float(ev_eq.lhs.evaluate()), float(ev_eq.rhs.evaluate()), rawv,
+                                     bool(ev_eq.is_equation_met())))
+        M.time.assign(t_now)
+        B.set_slack(0.0)
+    except Exception as ex:  # noqa: BLE001
+        ctx.spec_fail("operation-raised", inp, {"operation": "time_advance / get_epsilon", "raises": type(ex).__name__, "msg": str(ex)[:100]}, size)
+        return
+
+    reqs = ["F decls %s %s" % (P, mods_w), "F step %s %s" % (P, mods_w), "F enforce %s %s" % (P, mods_w)]
+    reqs += ["F slack %s %s %s" % (f2hex(0.9), f2hex(0.3), f2hex(t)) for (t, _) in slack_obs]
+    nh = len(reqs)
+    reqs += ["F met %s %d %s %s %s %s" % (c_, int(h_), f2hex(l_), f2hex(r_), f2hex(e_), tol) for (c_, h_, l_, r_, e_, _) in hard_obs]
+    n0 = len(reqs)
+    for (lab, raw) in SLACKS[:2]:
+        rawv = 0.0 if raw == 0.0 else B.real_eps
+        for (_, c) in use_cfgs:
+            reqs.append("F stepeval %s %s %s %s %s" % (P, f2hex(rawv), tol, mods_w, wire_cfg(c)))
+    n1 = len(reqs)
+    for c in rid_cfgs:
+        reqs.append("F rid %s %s %s %s" % (P, f2hex(0.1), mods_w, wire_cfg(c)))
+    replies = ctx.model(reqs)
+    if replies is not None:
+        # declarations: tree view, GKVariable view, GEKKO container
+        ctx.case("decls", key, True, None)
+        mdecl = replies[0].split(" ; ")
+        it = [_lc.ser_decl(*d) for d in tree]
+        ig = [_lc.ser_decl(*d) for d in gkvar]
+        if mdecl[0] != str(len(it)) or mdecl[1:] != it:
+            k = next((j for j, (a, b) in enumerate(zip(it, mdecl[1:])) if a != b), min(len(it), len(mdecl) - 1))
+            ctx.disagree("decls", inp, {"view": "ExpressionTree.data", "count": len(it), "first_diff": it[k] if k < len(it) else None},
+                         {"count": mdecl[0], "first_diff": mdecl[1 + k] if 1 + k < len(mdecl) else None}, size)
+        if mdecl[1:] != ig:
+            k = next((j for j, (a, b) in enumerate(zip(ig, mdecl[1:])) if a != b), min(len(ig), len(mdecl) - 1))
+            ctx.disagree("decls", inp, {"view": "GKVariable LOWER/UPPER/VALUE", "first_diff": ig[k] if k < len(ig) else None},
+                         {"first_diff": mdecl[1 + k] if 1 + k < len(mdecl) else None}, size)
+        mg = {}
+        for d in mdecl[1:]:
+            nm, va, lo, up = d.split("|")
+            mg[nm] = (hex2f(va), hex2f(lo), hex2f(up))
+        if mg != gek:
+            bad = sorted(set(mg) ^ set(gek)) or [n for n in mg if mg[n] != gek.get(n)]
+            ctx.disagree("decls", inp, {"view": "GEKKO._variables", "differs": bad[:4], "impl": [gek.get(n) for n in bad[:4]]},
+                         {"model": [mg.get(n) for n in bad[:4]]}, size)
+        ctx.extra["gekko_aux_variables_seen"] = ctx.extra.get("gekko_aux_variables_seen", 0) + aux
+        # step caps: structure
+        ctx.case("step-struct", key, True, None)
+        isteps = [ser_eq(g, e) for g, e in steps]
+        mst = replies[1].split(" ; ")
+        if mst[0] != str(len(isteps)) or mst[1:] != isteps:
+            k = next((j for j, (a, b) in enumerate(zip(isteps, mst[1:])) if a != b), min(len(isteps), len(mst) - 1))
+            ctx.disagree("step-struct", inp, {"count": len(isteps), "first_diff": isteps[k] if k < len(isteps) else None},
+                         {"count": mst[0], "first_diff": mst[1 + k] if 1 + k < len(mst) else None}, size)
+        # enforce flags
+        ctx.case("enforce", key, True, None)
+        men = replies[2].split(" ;")
+        mflags = [t_ == "1" for t_ in men[1].split()] if len(men) > 1 else []
+        if mflags != early["enforce"]:
+            # a pair whose L1 gap sits on the threshold is a rounding tie
+            if len(mflags) == len(early["enforce"]) and _enforce_ties(B, orders, mflags, early["enforce"]):
+                ctx.ties += 1
+            else:
+                ctx.disagree("enforce", inp, early["enforce"], replies[2][:300], size)
+        # slack schedule
+        for j, (t, v) in enumerate(slack_obs):
+            ctx.case("slack", (t,), True, None)
+            mr = replies[3 + j].split()
+            if len(mr) != 2:
+                ctx.disagree("slack", dict(inp, time=t), v, replies[3 + j], size)
+                continue
+            mraw, mv = hex2f(mr[0]), hex2f(mr[1])
+            if f2hex(v) != mr[1]:
+                if abs(v - mv) <= 1e-9 * max(abs(v), 1e-300) and (v == 0.0) == (mv == 0.0):
+                    ctx.drift += 1
+                elif abs(mraw - 1e-6) <= 1e-15:
+                    ctx.ties += 1
+                else:
+                    ctx.disagree("slack", dict(inp, time=t), f2hex(v), replies[3 + j], size)
+        # the hard equality of `Exact Value`
+        for j, ho in enumerate(hard_obs):
+            ctx.case("hard-eq", (ho[2], ho[3], ho[4]), True, None)
+            if replies[nh + j] != ("1" if ho[5] else "0"):
+                if abs(abs(ho[2] - ho[3]) - 1e-6) <= 1e-12:
+                    ctx.ties += 1
+                else:
+                    ctx.disagree("hard-eq", dict(inp, equation="exact_value", lhs=ho[2], rhs=ho[3], slack=ho[4]), ho[5], replies[nh + j], size)
+        # step caps: evaluation
+        for si, (lab, raw) in enumerate(SLACKS[:2]):
+            for k, (what, c) in enumerate(use_cfgs):
+                rep = replies[n0 + si * len(use_cfgs) + k].split(" ; ")
+                ob = step_obs[lab][k]
+                inp_c = dict(inp, cfg=[[[f2hex(v) for v in b] for b in boxes] for boxes in c], what=what, slack=lab)
+                ctx.case("step-eval", (key, lab, tuple(tuple(b) for boxes in c for b in boxes)), True, None)
+                if rep[0] != str(len(ob)):
+                    ctx.disagree("step-eval", inp_c, len(ob), rep[0][:100], size)
+                    continue
+                for j, (o, mline) in enumerate(zip(ob, rep[1:])):
+                    mt = mline.split()
+                    if len(o) == 1 or "none" in mt:
+                        ctx.disagree("step-eval", inp_c, {"eq": steps[j][1].name, "impl": o}, mline, size)
+                        continue
+                    if f2hex(o[0]) != mt[0] or f2hex(o[1]) != mt[1]:
+                        if abs(o[0] - hex2f(mt[0])) <= 1e-9 * max(1.0, abs(o[0])) and abs(o[1] - hex2f(mt[1])) <= 1e-9 * max(1.0, abs(o[1])):
+                            ctx.drift += 1
+                        else:
+                            ctx.disagree("step-eval", inp_c, {"eq": steps[j][1].name, "impl": [f2hex(o[0]), f2hex(o[1])]}, mline, size)
+                            continue
+                    if o[2] != (mt[2] == "1"):
+                        if abs(abs(o[0] - o[1]) - 1e-6) > 1e-9 * max(1.0, abs(o[0])):
+                            ctx.disagree("step-met", inp_c, {"eq": steps[j][1].name, "impl": o[2], "slack": lab}, mline, size)
+                        else:
+                            ctx.ties += 1
+        # disabled rectangles
+        for k, c in enumerate(rid_cfgs):
+            rep = replies[n1 + k]
+            ob = rid_obs[k]
+            inp_c = dict(inp, cfg=[[[f2hex(v) for v in b] for b in boxes] for boxes in c], what="turn_off_rects(0.1)+get_constraints")
+            ctx.case("rid", (key, tuple(tuple(b) for boxes in c for b in boxes)), True, None)
+            if isinstance(ob, str) or rep.startswith("err:"):
+                if ob != rep:
+                    ctx.disagree("rid", inp_c, ob if isinstance(ob, str) else "returned", rep[:100], size)
+                continue
+            flags, back, eqs = ob
+            parts = rep.split(" ; ")
+            mfl = [[t_ == "1" for t_ in seg.split()] for seg in parts[0][3:].split(" | ")]
+            if mfl != flags:
+                if _turnoff_tie(c, 0.1):
+                    ctx.ties += 1
+                else:
+                    ctx.disagree("rid-flags", inp_c, flags, parts[0][:300], size)
+                continue
+            if any(not all(f) for f in flags):
+                ctx.count("rid: some rectangle turned off")
+            mback = [[tuple(hex2f(t_) for t_ in seg.split()[4 * q:4 * q + 4]) for q in range(len(seg.split()) // 4)]
+                     for seg in parts[1][4:].split(" | ")]
+            if mback != [[tuple(b) for b in boxes] for boxes in back]:
+                ctx.disagree("rid-assign", inp_c, back, parts[1][:300], size)
+            if parts[2] != str(len(eqs)) or parts[3:] != eqs:
+                j = next((q for q, (a, b) in enumerate(zip(eqs, parts[3:])) if a != b), min(len(eqs), len(parts) - 3))
+                ctx.disagree("rid-struct", inp_c, {"count": len(eqs), "first_diff": eqs[j][:300] if j < len(eqs) else None},
+                             {"count": parts[2], "first_diff": parts[3 + j][:300] if 3 + j < len(parts) else None}, size)
+
+    # ---- spec on the implementation
+    # (1) the slack schedule: 0.3 * 0.9^t, reported as 0 below 1e-6  (Fractions for integer t)
+    for (t, v) in slack_obs:
+        if t != int(t):
+            continue
+        raw = F(3, 10) * F(9, 10) ** int(t)
+        want = 0.0 if raw < F(1, 10 ** 6) * (1 - F(1, 10 ** 9)) else (float(raw) if raw > F(1, 10 ** 6) * (1 + F(1, 10 ** 9)) else None)
+        if want is not None and abs(v - want) > 1e-9 * max(want, 1e-300):
+            ctx.spec_fail("slack-schedule", dict(inp, time=t), {"get_epsilon": v, "expected": want}, size)
+    for ho in hard_obs:
+        gap = abs(F(ho[2]) - F(ho[3]))
+        if not ho[1]:
+            ctx.spec_fail("exact-value-not-hard", inp, {"equation": "exact_value"}, size)
+        elif gap <= F(1, 10 ** 6) * (1 - F(1, 10 ** 6)) and not ho[5]:
+            ctx.spec_fail("hard-eq.complete", dict(inp, lhs=ho[2], rhs=ho[3]), {"gap": float(gap)}, size)
+        elif gap >= F(1, 10 ** 6) * (1 + F(1, 10 ** 6)) and ho[5]:
+            ctx.spec_fail("hard-eq.sound", dict(inp, lhs=ho[2], rhs=ho[3], slack=ho[4]), {"gap": float(gap), "met_although_apart": True}, size)
+    # (2) step caps: `stepEqs_met_iff` — a cap is met iff the coordinate is within rad + 1e-6 of the value it had when
+    #     Model(...) was built (w, h: upper cap only); rad = 0.06 * max(dw, dh) from the document
+    if not all(o is not None for o in orders):
+        return
+    rad = F(6, 100) * max(F(B.dw), F(B.dh))
+    base = input_cfg(B, orders)
+    mu = F(1, 10 ** 9) * max(F(B.dw), F(B.dh))
+    names = [e.name for _, e in steps]
+    for si, (lab, raw) in enumerate(SLACKS[:2]):
+        for k, (what, c) in enumerate(use_cfgs):
+            ob = step_obs[lab][k]
+            inp_c = dict(inp, cfg=[[[f2hex(v) for v in b] for b in boxes] for boxes in c], what=what, slack=lab)
+            want = []
+            for m, boxes in enumerate(c):
+                for i, b in enumerate(boxes):
+                    b0 = base[m][i]
+                    want += [F(b[0]) - F(b0[0]) - rad, F(b0[0]) - rad - F(b[0]), F(b[1]) - F(b0[1]) - rad, F(b0[1]) - rad - F(b[1]),
+                             F(b[2]) - F(b0[2]) - rad, F(b[3]) - F(b0[3]) - rad]
+            if len(want) != len(ob):
+                ctx.spec_fail("caps.count", inp_c, {"caps": len(ob), "expected": len(want)}, size)
+                continue
+            ctx.case("spec-caps", (key, lab, tuple(tuple(b) for boxes in c for b in boxes)), True, None)
+            outside = False
+            for j, (o, amt) in enumerate(zip(ob, want)):
+                if len(o) == 1:
+                    ctx.spec_fail("evaluate-raises", inp_c, {"eq": names[j], "error": o[0]}, size)
+                    break
+                if amt <= F(1, 10 ** 6) - mu and not o[2]:
+                    ctx.spec_fail("caps.complete", inp_c, {"eq": names[j], "within_cap_but_unmet": float(amt)}, size)
+                    break
+                if amt >= F(1, 10 ** 6) + mu:
+                    outside = True
+                    if o[2]:
+                        ctx.spec_fail("caps.sound", inp_c, {"eq": names[j], "outside_cap_but_met": float(amt)}, size)
+                        break
+            if lab == "0" and outside and all(v == "ok" for v in legal_status(B, orders, c).values()):
+                ctx.count("caps: LEGAL floorplan outside the step caps kept from construction (C09-stale-step-caps)")
+                _proposed(ctx, "C09-stale-step-caps", "caps.legal-outside-stale-caps", inp_c, {"what": what}, size)
+    # (3) not enforced => disjoint at the construction point (`unenforced_holds`)
+    inter = [e for e in B.model.gekko.constraints.get("Inter", [])]
+    pairs_ = []
+    for m in range(len(base)):
+        for n in range(m + 1, len(base)):
+            for p in base[m]:
+                for q in base[n]:
+                    pairs_.append((p, q))
+    thr = F(2, 10) * max(F(B.dw), F(B.dh))
+    if len(pairs_) == len(early["enforce"]):
+        for (p, q), en in zip(pairs_, early["enforce"]):
+            gx = max(F(0), abs(F(p[0]) - F(q[0])) - (F(p[2]) + F(q[2])) / 2)
+            gy = max(F(0), abs(F(p[1]) - F(q[1])) - (F(p[3]) + F(q[3])) / 2)
+            ctx.count("enforce:" + ("on" if en else "off"))
+            if not en and gx + gy <= thr * (1 - F(1, 10 ** 9)):
+                ctx.spec_fail("enforce.near-pair-dropped", inp, {"pair": [list(p), list(q)], "l1_gap": float(gx + gy), "threshold": float(thr)}, size)
+            if en and gx + gy >= thr * (1 + F(1, 10 ** 9)):
+                ctx.spec_fail("enforce.far-pair-kept", inp, {"pair": [list(p), list(q)], "l1_gap": float(gx + gy), "threshold": float(thr)}, size)
+    else:
+        ctx.spec_fail("enforce.count", inp, {"flags": len(early["enforce"]), "pairs": len(pairs_)}, size)
+    # (4) a disabled rectangle: Rid demands w = h = 0 while the declared lower bound is 0.1
+    for c, ob in zip(rid_cfgs, rid_obs):
+        if isinstance(ob, str):
+            continue
+        flags, back, eqs = ob
+        for m, fl in enumerate(flags):
+            a = sum(F(b[2]) * F(b[3]) for b in c[m])
+            for i, f_ in enumerate(fl):
+                share = F(c[m][i][2]) * F(c[m][i][3]) / a
+                if i == 0 or abs(share - F(1, 10)) <= F(1, 10 ** 9):
+                    if i == 0 and not f_:
+                        ctx.spec_fail("rid.trunk-disabled", inp, {"module": m}, size)
+                    continue
+                if f_ != (share > F(1, 10)):
+                    ctx.spec_fail("rid.flag", inp, {"module": m, "rect": i, "share": float(share), "enabled": f_}, size)
+                if not f_:
+                    lbw = [lo for (mm, ii, kk, lo, up) in early["bounds"] if (mm, ii) == (m, i) and kk in "wh"]
+                    if lbw and min(lbw) > 1e-6:
+                        ctx.count("rid: disabled rectangle must have w = h = 0 but its declared lower bound is %g (C09-disabled-rect)" % min(lbw))
+
+
+def _enforce_ties(B, orders, mflags, iflags) -> bool:
+    if not all(o is not None for o in orders):
+        return False
+    base = input_cfg(B, orders)
+    thr = 0.2 * max(B.dw, B.dh)
+    k = 0
+    for m in range(len(base)):
+        for n in range(m + 1, len(base)):
+            for p in base[m]:
+                for q in base[n]:
+                    if mflags[k] != iflags[k]:
+                        d = max(0.0, abs(p[0] - q[0]) - 0.5 * (p[2] + q[2])) + max(0.0, abs(p[1] - q[1]) - 0.5 * (p[3] + q[3]))
+                        if abs(d - thr) > 1e-9 * max(1.0, thr):
+                            return False
+                    k += 1
+    return True
+
+
+def _turnoff_tie(c, perc) -> bool:
+    for boxes in c:
+        a = sum(b[2] * b[3] for b in boxes)
+        if a and any(abs(b[2] * b[3] / a - perc) <= 1e-9 for b in boxes[1:]):
+            return True
+    return False
+
+
+# ----------------------------------------------------------------------------- end to end: the real legaliser, solver included
+class _Shim:
+    """what the Fraction oracle needs of a `Built`."""
+
+    def __init__(self, inmods, dw, dh, r):
+        self.inmods, self.dw, self.dh, self.r = inmods, dw, dh, r
+
+
+def _live_worker(job: dict) -> dict:
+    """one real `legalfloor.main` run (forked child): netlist + die files in, the floorplan of the captured Model out."""
+    import contextlib
+    import io
+    import os
+    import shutil
+    import tempfile
+    import time as _t
+    out: dict = {}
+    d = tempfile.mkdtemp(prefix="c09live_")
+    t0 = _t.time()
+    try:
+        from tools.legalfloor import legalfloor as lf, expression_tree as et
+        from frame.geometry.geometry import Rectangle
+        from frame.netlist.netlist import Netlist
+        Rectangle.undefine_epsilon()
+        cap = []
+
+        class Capturing(lf.Model):
+            def __init__(self, *a, **k):
+                cap.append(self)
+                super().__init__(*a, **k)
+
+            def solve(self, *a, **k):
+                self._c09_eps_last = float(et.get_epsilon())   # the slack of the system this solve is given
+                return super().solve(*a, **k)
+
+        lf.Model = Capturing
+        with open(d + "/n.yaml", "w") as f:
+            f.write(job["yaml"])
+        with open(d + "/d.yaml", "w") as f:
+            f.write("width: %r\nheight: %r\n" % (job["dw"], job["dh"]))
+        buf = io.StringIO()
+        with contextlib.redirect_stdout(buf), contextlib.redirect_stderr(buf):
+            nl = Netlist(job["yaml"])
+            inmods = []
+            for m in nl.modules:
+                inmods.append({"hard": bool(m.is_hard), "fixed": bool(m.is_fixed), "area": m.area(),
+                               "rects": [(r_.center.x, r_.center.y, r_.shape.w, r_.shape.h, _lc.LOC[r_.location.name]) for r_ in m.rectangles]})
+            out["inmods"] = inmods
+            Rectangle.undefine_epsilon()
+            rc = lf.main("legalfloor", [d + "/n.yaml", d + "/d.yaml", "--num_iter", str(job["iters"]), "--max_ratio", repr(job["r"]),
+                                        "--outfile", d + "/o.yaml"] + list(job.get("extra", [])))
+        m = cap[0]
+        out.update(rc=rc, solved=bool(m.is_solved()), eps_last=getattr(m, "_c09_eps_last", None), outfile=os.path.exists(d + "/o.yaml"),
+                   cfg=[[(float(m.x[i][j].evaluate()), float(m.y[i][j].evaluate()), float(m.w[i][j].evaluate()), float(m.h[i][j].evaluate()))
+                         for j in range(len(m.x[i]))] for i in range(len(m.M))],
+                   enable=[[bool(e) for e in mm.enable] for mm in m.M])
+    except BaseException as ex:  # noqa: BLE001  (SystemExit of argparse included)
+        out.update(raised=type(ex).__name__, msg=str(ex)[:160])
+    finally:
+        shutil.rmtree(d, ignore_errors=True)
+        try:
+            _cleanup()
+        except Exception:  # noqa: BLE001
+            pass
+    out["time"] = _t.time() - t0
+    return out
+
+
+def gen_live_instance(rng, allow_small: bool):
+    """a tiny legal floorplan for a real run: 2-3 modules in 20 x 20 lattice cells, compact trunks (6..10 units), at most one
+    thick branch per side whose area is at least 18 % of the module (so that `turn_off_rects(0.1)` leaves it alone) unless
+    `allow_small`."""
+    fam = rng.choice(["int", "quarter"])
+    s = {"int": Fraction(1), "quarter": Fraction(1, 4)}[fam]
+    cols, rows = rng.choice([(2, 1), (1, 2), (2, 2), (3, 1)])
+    cw = ch = 20
+    cells = [(c, r) for r in range(rows) for c in range(cols)]
+    rng.shuffle(cells)
+    nm = rng.randint(2, min(3, len(cells)))
+    mods = []
+    for k in range(nm):
+        c, r = cells[k]
+        kind = rng.choice(["soft", "soft", "hard", "fixed"])
+        tx0, ty0 = rng.choice([4, 6]), rng.choice([4, 6])
+        tw, th = rng.choice([6, 8, 10]), rng.choice([6, 8, 10])
+        tx1, ty1 = tx0 + tw, ty0 + th
+        rects = [(tx0, tx1, ty0, ty1, "T")]
+        # quick tier: only rigid (hard / fixed) modules get branches — a soft module with a branch can reach a shape that
+        # `fuse_rects` / `turn_off_rects` disable in mid-run, after which every solve fails slowly (C09-disabled-rect)
+        nbr = rng.choice([0, 1, 1, 2]) if (allow_small or kind != "soft") else 0
+        for side in rng.sample(list(SIDES), nbr):
+            t = rng.choice([2, 4]) if allow_small else 4
+            lo, hi = (tx0, tx1) if side in "NS" else (ty0, ty1)
+            ln = rng.choice([4, 6]) if not allow_small else rng.choice([2, 4, 6])
+            a = lo + 2 * rng.randint(0, (hi - lo - ln) // 2)
+            b = a + ln
+            if side == "N":
+                rects.append((a, b, ty1, ty1 + t, "N"))
+            elif side == "S":
+                rects.append((a, b, ty0 - t, ty0, "S"))
+            elif side == "E":
+                rects.append((tx1, tx1 + t, a, b, "E"))
+            else:
+                rects.append((tx0 - t, tx0, a, b, "W"))
+        if not allow_small:
+            # `fuse_rects(0.05)` merges a branch into the trunk when the two nearly fill their bounding box: keep them apart (<= 90 %)
+            def fusable(rc):
+                bx = (max(rc[1], tx1) - min(rc[0], tx0)) * (max(rc[3], ty1) - min(rc[2], ty0))
+                return ((rc[1] - rc[0]) * (rc[3] - rc[2]) + tw * th) * 10 > 9 * bx
+            rects = [rc for n_, rc in enumerate(rects) if n_ == 0 or not fusable(rc)]
+        tot = sum((x1 - x0) * (y1 - y0) for (x0, x1, y0, y1, _) in rects)
+        if not allow_small:
+            rects = [rc for n_, rc in enumerate(rects) if n_ == 0 or (rc[1] - rc[0]) * (rc[3] - rc[2]) * 100 >= 18 * tot]
+            tot = sum((x1 - x0) * (y1 - y0) for (x0, x1, y0, y1, _) in rects)
+            rects = [rc for n_, rc in enumerate(rects) if n_ == 0 or (rc[1] - rc[0]) * (rc[3] - rc[2]) * 100 >= 18 * tot]
+            tot = sum((x1 - x0) * (y1 - y0) for (x0, x1, y0, y1, _) in rects)
+        rects = [(x0 + c * cw, x1 + c * cw, y0 + r * ch, y1 + r * ch, sd) for (x0, x1, y0, y1, sd) in rects]
+        mods.append({"kind": kind, "rects": rects, "area_lat": tot * rng.choice([Fraction(1), Fraction(9, 10)]), "cell": (c * cw, r * ch, cw, ch)})
+    asp = max(max(Fraction(x1 - x0, y1 - y0), Fraction(y1 - y0, x1 - x0)) for m in mods for (x0, x1, y0, y1, _) in m["rects"])
+    r = max(asp * Fraction(rng.randint(110, 160), 100), Fraction(2))
+    return {"fam": fam, "s": s, "mods": mods, "dw_lat": cols * cw, "dh_lat": rows * ch, "r": float(r)}
+
+
+def _live_instances(ctx: Ctx, n: int, max_rects: int):
+    """tiny legal floorplans (>= 2 modules on one net) and slightly illegal ones (one movable module shifted onto its neighbour /
+    partly out of the die); two thirds of them contain a module with a branch."""
+    jobs = []
+    tries = 0
+    while len(jobs) < n and tries < 4000:
+        tries += 1
+        allow_small = ctx.tier != "quick" and ctx.rng.random() < 0.35
+        inst = gen_live_instance(ctx.rng, allow_small)
+        nrect = sum(len(m["rects"]) for m in inst["mods"])
+        if nrect > max_rects or (len(jobs) % 3 != 2 and nrect == len(inst["mods"])):
+            continue
+        small = False
+        for m in inst["mods"]:
+            tot = sum((x1 - x0) * (y1 - y0) for (x0, x1, y0, y1, _) in m["rects"])
+            if any((x1 - x0) * (y1 - y0) * 100 < 18 * tot for (x0, x1, y0, y1, _) in m["rects"][1:]):
+                small = True
+        kind = "legal"
+        movable = [k for k, m in enumerate(inst["mods"]) if m["kind"] != "fixed"]
+        if movable and ctx.rng.random() < 0.5:
+            k = ctx.rng.choice(movable)
+            dx, dy = ctx.rng.choice([(-6, 0), (6, 0), (0, -6), (0, 6), (-4, -4), (4, 4), (8, 0), (0, 8)])
+            inst["mods"][k]["rects"] = [(x0 + dx, x1 + dx, y0 + dy, y1 + dy, sd) for (x0, x1, y0, y1, sd) in inst["mods"][k]["rects"]]
+            kind = "shifted"
+        jobs.append({"yaml": yaml_of(inst), "dw": float(inst["dw_lat"] * inst["s"]), "dh": float(inst["dh_lat"] * inst["s"]), "r": inst["r"],
+                     "fam": inst["fam"], "kind": kind, "small_branch": small})
+    return jobs
+
+
+def run_live(ctx: Ctx) -> None:
+    """END TO END: `tools/legalfloor` `main` (GEKKO + the local solver binary, offline) on tiny inputs; a floorplan returned by a
+    run whose last solve succeeded, with every rectangle enabled, must be legal within the slack of that solve."""
+    import multiprocessing as mp
+    import os
+    quick = ctx.tier == "quick"
+    n = 6 if quick else 36
+    if ctx.budget > 1.0:
+        n = n * 2            # extended search: a few more, not x20 (seconds per run)
+    iters = 14 if quick else 45
+    jobs = _live_instances(ctx, n, 6 if quick else 9)
+    for j in jobs:
+        j["iters"] = iters
+    stats = ctx.extra.setdefault("live_legaliser_runs", {"launched": 0, "returned": 0, "last_solve_succeeded": 0, "judged": 0,
+                                                         "with_disabled_rectangle": 0, "raised": {}, "iterations": iters})
+    if not jobs:
+        return
+    try:
+        with mp.get_context("fork").Pool(min(len(jobs), os.cpu_count() or 1, 12)) as pool:
+            res = pool.map_async(_live_worker, jobs).get(timeout=900 if not quick else 150)
+    except Exception as ex:  # noqa: BLE001
+        ctx.notes.append("live legaliser runs could not be collected: %s" % type(ex).__name__)
+        return
+    stats["run_seconds"] = [round(r.get("time", 0.0), 1) for r in res]
+    for job, r in zip(jobs, res):
+        _judge_live(ctx, job, r, stats)
+    if stats["judged"] == 0:
+        ctx.notes.append("no live legaliser run was judged in this run (returned: %d of %d)" % (stats["returned"], stats["launched"]))
+
+
+def _live_verdict(B, orders, cfg, job, r):
+    """(groups violated beyond the allowance, rectangles of non-positive size, allowance for the linear groups)."""
+    F = Fraction
+    nonpos = [(m, i) for m, boxes in enumerate(cfg) for i, b in enumerate(boxes) if b[2] <= 0 or b[3] <= 0]
+    # allowance: the slack of the last solve + the constant of is_equation_met + the solver's own tolerance.  `ModelWrapper.solve`
+    # sets RTOL = OTOL = 1e-2, which the solver applies RELATIVE to the size of an equation's terms (observed: a no-overlap
+    # equation with terms ~169 left violated by 1.9): 3e-2 x the largest term of the group's equations.
+    base = F(r["eps_last"]) + F(1, 10 ** 6)
+    die = max(F(job["dw"]), F(job["dh"]))
+    rtol = F(3, 100)
+    ev = eq_violations(B, orders, cfg)
+    amax = max([F(m_["area"]) for m_ in B.inmods] + [F(1)])
+    scale = {"Bounds": die, "Attach": die, "Intra": die, "Fix": die, "Shapes": F(5), "Area": amax}
+    ms = {}
+    for g in GROUPS:
+        if g == "Inter":
+            continue
+        ms[g] = met_status(B, {h: (ev[h] if h == g else []) for h in GROUPS}, base + rtol * scale[g], F(1, 10 ** 9))[g]
+    tau = F(1, 100) * min(F(job["dw"]), F(job["dh"])) / len(B.inmods)
+    worst_inter = "ok"
+    flat = [b for boxes in cfg for b in boxes]
+    big2 = max([(F(b[2]) + F(b[3])) ** 2 for b in flat] + [F(1)])
+    for (tx, ty) in ev["Inter"]:
+        d = base + rtol * max(abs(tx), abs(ty), big2)
+        if not ((tx + d) + (ty + d) >= 0 or (tx + d) * (ty + d) <= tau * tau):
+            worst_inter = "viol"
+    ms["Inter"] = worst_inter
+    delta = base + rtol * die
+    return sorted(g for g, s_ in ms.items() if s_ == "viol"), nonpos, delta
+
+
+def _judge_live(ctx: Ctx, job: dict, r: dict, stats: dict) -> None:
+    F = Fraction
+    stats["launched"] += 1
+    inp = {"live": True, "yaml": job["yaml"], "dw": job["dw"], "dh": job["dh"], "r": job["r"], "iters": job["iters"], "fam": job["fam"],
+           "kind": job["kind"]}
+    size = len(job["yaml"])
+    ctx.case("live", (job["yaml"], job["dw"], job["dh"], job["r"], job["iters"]), True, None)
+    if "cfg" not in r:
+        cls = r.get("raised", "?")
+        stats["raised"][cls] = stats["raised"].get(cls, 0) + 1
+        ctx.count("live: raised " + cls)
+        return
+    stats["returned"] += 1
+    cfg = [[tuple(b) for b in boxes] for boxes in r["cfg"]]
+    disabled = any(not all(e) for e in r["enable"])
+    if disabled:
+        stats["with_disabled_rectangle"] += 1
+    if r["solved"]:
+        stats["last_solve_succeeded"] += 1
+    ctx.count("live: %s input, %s%s" % (job["kind"], "last solve succeeded" if r["solved"] else "last solve FAILED",
+                                      ", a rectangle was turned off" if disabled else ""))
+    B = _Shim(r["inmods"], job["dw"], job["dh"], job["r"])
+    orders = [model_order(m) for m in B.inmods]
+    if not all(o is not None for o in orders) or r.get("eps_last") is None:
+        return
+    # rectangles in ModelModule order = order of the captured model's variables
+    if any(len(boxes) != len(o[0]) for boxes, o in zip(cfg, orders)):
+        ctx.spec_fail("live.shape", inp, {"rects_per_module": [len(b) for b in cfg]}, size)
+        return
+    bad, nonpos, delta = _live_verdict(B, orders, cfg, job, r)
+    detail = {"violated_beyond_slack": bad, "nonpositive": nonpos[:3], "slack_of_last_solve": r["eps_last"], "allowance": float(delta),
+              "floorplan": [[list(b) for b in boxes] for boxes in cfg], "enable": r["enable"], "last_solve_succeeded": r["solved"]}
+    if not (bad or nonpos):
+        if r["solved"] and not disabled:
+            stats["judged"] += 1
+        ctx.count("live: returned floorplan legal within the slack of the last solve")
+        return
+    # the branches of a movable hard module put back at their INPUT place after the solve (`fixed_vars` reset): judged on the
+    # floorplan with those branches re-attached at their original offsets; if that one is legal the failure is exactly this defect
+    reset = False
+    cfg2 = [list(boxes) for boxes in cfg]
+    for m_, im in enumerate(B.inmods):
+        if not im["hard"] or im["fixed"] or len(cfg[m_]) < 2:
+            continue
+        orig = [tuple(float(v) for v in im["rects"][k_][:4]) for k_ in orders[m_][0]]
+        moved = abs(cfg[m_][0][0] - orig[0][0]) + abs(cfg[m_][0][1] - orig[0][1]) > 1e-3
+        back = all(abs(cfg[m_][i_][0] - orig[i_][0]) <= 1e-6 and abs(cfg[m_][i_][1] - orig[i_][1]) <= 1e-6 for i_ in range(1, len(orig)))
+        if moved and back:
+            reset = True
+            for i_ in range(1, len(orig)):
+                cfg2[m_][i_] = (cfg[m_][0][0] + orig[i_][0] - orig[0][0], cfg[m_][0][1] + orig[i_][1] - orig[0][1], cfg[m_][i_][2], cfg[m_][i_][3])
+    if reset and not disabled and r["solved"]:
+        bad2, nonpos2, _ = _live_verdict(B, orders, cfg2, job, r)
+        if not (bad2 or nonpos2):
+            stats["judged"] += 1
+            ctx.count("live: hard module returned with its branches back at the input place (C09-fixed-vars-reset)")
+            _proposed(ctx, "C09-fixed-vars-reset", "live." + "+".join(bad or ["Positive"]), inp, detail, size)
+            return
+    if disabled:
+        ctx.count("live: ILLEGAL floorplan returned after a rectangle was turned off (C09-disabled-rect)")
+        _proposed(ctx, "C09-disabled-rect", "live." + "+".join(bad or ["Positive"]), inp, detail, size)
+        return
+    if not r["solved"]:
+        ctx.count("live: illegal floorplan, but the last solve reported failure (not judged)")
+        return
+    stats["judged"] += 1
+    ctx.spec_fail("live." + "+".join(bad or ["Positive"]), inp, detail, size)
+
+
+def _proposed(ctx: Ctx, fid: str, clause: str, inp, detail, size) -> None:
+    """a failure inside the region of a finding this check knows: a spec failure carrying the finding id once the
+    coordinator has registered it in known_findings.json; until then only counted (evidence key `proposed_findings`)."""
+    import json
+    import os
+    reg = ctx.extra.setdefault("proposed_findings", {})
+    reg[fid] = reg.get(fid, 0) + 1
+    try:
+        known = json.load(open(os.path.join(os.path.dirname(os.path.dirname(os.path.dirname(os.path.abspath(__file__)))), "known_findings.json")))
+    except Exception:  # noqa: BLE001
+        known = []
+    if any(k.get("id") == fid and k.get("status") == "open" for k in known):
+        ctx.spec_fail(clause, inp, detail, size, finding=fid)
+    elif any(k.get("id") in (fid, fid.replace("-", "_")) and k.get("status") == "fixed" for k in known):
+        ctx.spec_fail(clause, inp, detail, size)          # a repaired defect that shows again
 
 
 CORPUS_YAML = """
@@ -667,6 +1402,16 @@ Nets: [[A, B, C]]
 """
 
 
+# the witness of the former NOT CLAIMED block: soft A with w = h = -2 exactly on top of soft B meets every equation
+NEG_YAML = """
+Modules: {
+  A: { area: 4, rectangles: [[7, 7, 2, 2]] },
+  B: { area: 4, rectangles: [[3, 3, 2, 2]] }
+}
+Nets: [[A, B]]
+"""
+
+
 def run(ctx: Ctx) -> None:
     ctx.rule = ("legal floorplans built on an integer lattice (1–4 modules in disjoint cells of the die; trunk with 0–2 branches per "
                 "side, branches possibly abutting and listed in either order; soft / hard / fixed; required area 100%/90%/75% of the "
@@ -675,6 +1420,10 @@ def run(ctx: Ctx) -> None:
                 "~14 variants (nudges, shifts, moves far away / onto another module, thinning, shrinking, growing, detaching, sliding, "
                 "swapping branches, resizing, moving a branch) and variants of a legal variant. A configuration is classified by the "
                 "Fraction oracle; 'unsure' ones (a clause between 1e-8 and 2% of the smallest side) are not judged. "
+                "Also: variants with negated / tiny (< 0.1) sizes, a 'centi' unit (modules narrower than 0.1), 12 % of the soft modules "
+                "with a detached extra rectangle (roles NO_POLYGON; correspondence streams only), a fixed corpus configuration with a "
+                "negative-size box that meets every equation; live: 6 (thorough 36) tiny netlists (>= 2 modules on a net, int / quarter "
+                "lattice, branches >= 18 % of their module in quick), half of them with one movable module shifted by 4..8 lattice units. "
                 "distinct = distinct (netlist, die, ratio[, configuration])")
     seeds = getattr(ctx, "seed_inputs", None) or []
     for inp in seeds[:20]:
@@ -682,17 +1431,34 @@ def run(ctx: Ctx) -> None:
         check_instance(ctx, base, 10)
     if ctx.budget <= 1.0:
         check_instance(ctx, {"yaml": CORPUS_YAML, "dw": 20.0, "dh": 20.0, "r": 3.0, "fam": "corpus"}, 30)
+        check_instance(ctx, {"yaml": NEG_YAML, "dw": 10.0, "dh": 10.0, "r": 3.0, "fam": "corpus",
+                             "extra_cfgs": [[[(3.0, 3.0, -2.0, -2.0)], [(3.0, 3.0, 2.0, 2.0)]]]}, 6)
     for _ in range(ctx.n(60, 2000)):
         inst = gen_instance(ctx.rng)
         inp = {"yaml": yaml_of(inst), "dw": float(inst["dw_lat"] * inst["s"]), "dh": float(inst["dh_lat"] * inst["s"]),
                "r": inst["r"], "fam": inst["fam"]}
         check_instance(ctx, inp, 12)
-    ctx.assumptions.append("rectangle sizes of a configuration are positive (GEKKO variable bounds lb = 0.1 on w, h; reported in "
-                           "coverage.variable_bounds_lb_on_w_h, not part of the property)")
+    try:
+        import time as _t
+        t_live = _t.time()
+        run_live(ctx)
+        ctx.extra["live_wall_s"] = round(_t.time() - t_live, 1)
+    except Exception as ex:  # noqa: BLE001
+        ctx.notes.append("live legaliser stream failed: %s %s" % (type(ex).__name__, str(ex)[:100]))
+    ctx.assumptions.append("GEKKO enforces the declared variable bounds (lb = 0.1 on w, h: positive sizes); the bounds themselves are "
+                           "compared with the model on every run (stream decls) and are part of the judged system")
     ctx.assumptions.append("max_ratio >= 1; die and ratio are floats; at least one module")
 
 
 def replay(ctx: Ctx, body: dict) -> None:
     inp = body["input"]
+    if inp.get("live"):
+        job = {k: inp[k] for k in ("yaml", "dw", "dh", "r", "iters", "fam", "kind")}
+        import multiprocessing as mp
+        with mp.get_context("fork").Pool(1) as pool:
+            r = pool.apply(_live_worker, (job,))
+        _judge_live(ctx, job, r, ctx.extra.setdefault("live_legaliser_runs", {"launched": 0, "returned": 0, "last_solve_succeeded": 0,
+                                                                             "judged": 0, "with_disabled_rectangle": 0, "raised": {}}))
+        return
     base = {k: inp[k] for k in ("yaml", "dw", "dh", "r", "fam") if k in inp}
     check_instance(ctx, base, 14, fixed_cfgs=[inp["cfg"]] if "cfg" in inp else None)
